@@ -105,6 +105,20 @@ func runSign(d *big.Int, aux, msg []byte, route int, mode string) string {
 	if err != nil || !pk2.Verify(msg, sig) {
 		return "signature does not verify under the x-only public key"
 	}
+	// history on the key pair object: after signing and verifying, it verifies again, still exposes the even-y point
+	// and its x-coordinate, and signs the same message to the same bytes
+	if !sk.PublicKey().Verify(msg, sig) || !pk2.Verify(msg, sig) {
+		return "a second verification of the same signature on the same key object fails (the answer depends on the key object's history)"
+	}
+	if mm := checkPubKey(sk.PublicKey(), ref.BaseMul(d)); mm != "" {
+		return "after sign/verify the key pair's public key: " + mm
+	}
+	if mm := checkPubKey(pk2, ref.BaseMul(d)); mm != "" {
+		return "after verify the imported public key: " + mm
+	}
+	if sig2, err := sk.Sign(sc.New(), m, nil); err != nil || !bytes.Equal(sig2, want) {
+		return fmt.Sprintf("signing the same message again on the same key object gives %x (err=%v), BIP-340 Sign = %x", sig2, err, want)
+	}
 	return ""
 }
 
